@@ -27,7 +27,7 @@ SPECS = [("none",), ("name", "f32"), ("name", "f64")] + [("native", n, w) for n 
 N = 5
 
 
-def make_set(cls, src, w, fields):
+def make_set(cls, src, w, fields, view=False):
     from aspire.samples import BaseSamples, Samples, SMCSamples
 
     K = {"base": BaseSamples, "samples": Samples, "smc": SMCSamples}[cls]
@@ -44,12 +44,23 @@ def make_set(cls, src, w, fields):
         kw.update(beta=0.0 if zero else 0.5, log_evidence=ev[0], log_evidence_error=ev[1])
     elif cls == "samples" and fields != "all":      # with the full triple the constructor recomputes the evidence
         kw.update(log_evidence=ev[0], log_evidence_error=ev[1])
-    return K, K(**kw)
+    s = K(**kw)
+    if view and cls != "samples":
+        # the set that is converted is itself a selection of a larger one (thinned chain, burn-in removed): its arrays may be
+        # non-contiguous views.  (`Samples.__getitem__` recomputes the ESS, which the value comparison does not expect.)
+        kw2 = dict(kw)
+        for f in ("x", "log_likelihood", "log_prior", "log_q"):
+            if kw2.get(f) is not None:
+                a = np.repeat(np.asarray(kw2[f]), 2, axis=0)
+                a[1::2] = a[1::2] + 1000.0
+                kw2[f] = a
+        s = K(**kw2)[::2]
+    return K, s
 
 
 def run_cell(cell):
     cls, src, w, tgt, spec, method, fields = cell
-    K, s = make_set(cls, src, w, fields)
+    K, s = make_set(cls, src, w, fields, view=(NSS.index(src) + NSS.index(tgt) + len(method)) % 2 == 1)
     txp = ns.get_xp(tgt)
     if spec[0] == "none":
         dkw = {}
@@ -237,6 +248,29 @@ def check_proposal_outputs(chk):
                      {"clause": "proposal", "tgt": tgt, "exc": type(e).__name__})
 
 
+def early_jax_lookup(chk):
+    """a user who converts to JAX BEFORE enabling 64-bit mode (aspire then resolves "float64" for JAX while x64 is off) and enables it
+    afterwards must get float64 from then on: nothing about the earlier state may stick.  Must run before anything enables x64."""
+    import warnings
+
+    import jax
+
+    if jax.config.jax_enable_x64:
+        chk.count("early_jax_lookup:skipped_x64_already_on")
+        return
+    from aspire.samples import BaseSamples
+
+    try:
+        with warnings.catch_warnings():
+            warnings.simplefilter("ignore")
+            s = BaseSamples(x=np.ones((2, 2)), xp=np, dtype="float64")
+            s.to_namespace(jax.numpy, dtype="float64")
+            BaseSamples.from_samples(s, xp=jax.numpy, dtype="float64")
+        chk.count("early_jax_lookup:done_with_x64_off")
+    except Exception:   # noqa - what happens with x64 off is not checked, only that it leaves no trace
+        chk.count("early_jax_lookup:raised_with_x64_off")
+
+
 def all_cells(field_sets):
     return [(c, s, w, t, sp, m, f) for c in CLS for s in NSS for w in WS for t in NSS for sp in SPECS for m in METHODS for f in field_sets]
 
@@ -248,6 +282,7 @@ def run(chk: core.Check):
                 "incl. resume, the xp= output option for all 9 pairs, a real zuko proposal consumed in 3 namespaces; non-trivial = cross-namespace or explicit dtype")
     chk.trusted += ["library rules of numpy/torch/jax asarray on foreign dtype objects (parameters of the model, validated by this run)",
                     "jax runs with x64 enabled (as in the repository's test-suite)"]
+    early_jax_lookup(chk)
     cells = all_cells(("all",) if quick else ("all", "some", "none"))
     if quick:   # sets WITHOUT the full log-density triple (what SMC / MCMC return): attached evidence is carried, not recomputed
         cells += [c for c in all_cells(("some",)) if c[4][0] == "none"]
